@@ -81,6 +81,7 @@ static const int *ns_must_by_tag;                    /* harness table: tag -> mu
 static void (*ns_mon_send)(int d, int from_proc, int to_server);    /* every datagram as emitted (before relay/fate) */
 static void (*ns_mon_srv_recv)(int d);                              /* every datagram handed to the server */
 static void (*ns_mon_tun_write)(int proc, const unsigned char *data, int len, int matched_rd);
+static int  (*ns_force_fate)(int d, int to_server);                 /* optional: fate decided by the harness (>= 0), -1 = none */
 static int  (*ns_extra_fate)(int d, int to_server);                 /* optional extra choice logic; return 1 if it consumed d */
 static void (*ns_viol)(const char *sig, const char *detail);        /* integrity violations found by the core monitor */
 static void (*ns_install_hooks)(void);                              /* called after vw_init(), before any process runs */
@@ -264,8 +265,12 @@ static void ns_on_send(int d)
 	if (si < 0) { vw_dgram_free(d); return; }
 	int64_t lat = to_server ? NC.lat_up : NC.lat_down;
 	if (ns_extra_fate && ns_extra_fate(d, to_server)) return;
-	int fate = F_ONTIME;
-	if (ns_choices_on) {
+	int fate = F_ONTIME, forced = ns_force_fate ? ns_force_fate(d, to_server) : -1;
+	if (forced >= 0) {
+		fate = forced;
+		int isdns = g->len >= 12 && !(g->len >= 3 && g->data[0] == 0x10 && g->data[1] == 0xd1 && g->data[2] == 0x9e);
+		if (fate == F_DUPNEWID && (!isdns || !to_server)) fate = F_DUP;
+	} else if (ns_choices_on) {
 		int costs[F_NFATES];
 		for (int i = 0; i < F_NFATES; i++) costs[i] = (i == 0) ? 0 : ((ns_fate_mask >> i) & 1) ? 1 : 1000;
 		int isdns = g->len >= 12 && !(g->len >= 3 && g->data[0] == 0x10 && g->data[1] == 0xd1 && g->data[2] == 0x9e);
